@@ -263,7 +263,7 @@ def _gen_sources(rng, comp, fs, fch1, asc, tmax, j):
 
 def gen_cases(seed, tier):
     rng = np.random.default_rng([seed, 10])
-    n = 1512 if tier == 'quick' else 45360
+    n = 1512 if tier == 'quick' else 181440
     cases = []
     for i in range(n):
         kind = KINDS[i % 3]
